@@ -116,6 +116,15 @@ Theorem C19_issuer_validation : forall (raw : string) (o : url_oracle) (insecure
 Proof. exact validate_issuer_ok. Qed.
 Print Assumptions C19_issuer_validation.
 
+(* http without the insecure opt-in is refused however the scheme is spelled (RFC 3986 3.1: HTTP://, Http://,
+   hTTp:// are http), for every issuer string on which url.Parse's answer agrees with the spelling (wf) *)
+Theorem C19_http_any_spelling_needs_opt_in : forall (api : iss_api) (raw : string) (hostless : bool) (o : url_oracle),
+  (api = ApiValidate \/ api = ApiNewProvider) ->
+  wf (IIssuer api raw hostless o false) = true -> starts_with_http raw = true ->
+  validate_issuer raw o false <> IssOk.
+Proof. exact http_any_spelling_needs_opt_in. Qed.
+Print Assumptions C19_http_any_spelling_needs_opt_in.
+
 (* the path given to IssuerFromHost / IssuerFromForwardedOrHost: no '?' and no '#' *)
 Theorem C19_issuer_path_validation : forall (raw : string) (o : url_oracle),
   validate_issuer_path raw o = IssOk <->
